@@ -180,8 +180,8 @@ impl IndicatorInstance for TrendStrengthIndexInstance {
 		// flat window: the correlation is undefined (0/0), report no trend instead of NaN
 		let value = if q > 0.0 { p / q.sqrt() } else { 0.0 };
 
-		let cross_signal = self.cross_under.next(&(value, self.cfg.zone))
-			- self.cross_above.next(&(value, -self.cfg.zone));
+		let cross_signal = self.cross_above.next(&(value, -self.cfg.zone))
+			- self.cross_under.next(&(value, self.cfg.zone));
 		let reverse = self.reverse.next(&value).analog();
 
 		let is_upper_signal = reverse < 0 && self.window[self.cfg.reverse_offset] >= self.cfg.zone;
